@@ -30,6 +30,9 @@ structure Ctx (α : Type) where
   sp : α
   hy : α
   phA : α
+  /-- `r + 1` on runes: the candidate after `r` for the placeholder of Editor.WrapOpts / JustifyOpts (the
+  first candidate is `phA`); only looked at when the line separator contains `phA` -/
+  phNext : α → α := id
   nl : α
   dIndent : List α
   dLineSep : List α
@@ -153,6 +156,31 @@ def notSpaceHead (gc : List α) : Bool :=
   match gc with
   | [] => false
   | c :: _ => !cx.isSpace c
+
+/-- the loop `for strings.ContainsRune(sep, c) { c++ }` of affixPlaceholder with at most `n` tests;
+after `n` tests the next candidate is taken untested -/
+def phSearch (sep : List α) : Nat → α → α
+  | 0, c => c
+  | n + 1, c => if c ∈ sep then phSearch sep n (cx.phNext c) else c
+
+/-- affixPlaceholder: the stand-in Editor.WrapOpts and JustifyOpts pad a paragraph with in place of
+the paragraph separator's affixes: the first of `phA, phNext phA, …` that does not occur in the line separator `sep` (which
+Wrap turns into spaces and Justify splits on).  `|sep|` tests suffice: of `|sep| + 1` pairwise different candidates one
+is not among the `|sep|` atoms of `sep` (`Ctx.PhFresh`; a theorem for instance A) -/
+def Ctx.placeholder (sep : List α) : α := phSearch cx sep sep.length cx.phA
+
+/-- the placeholder search finds, within its fuel, a candidate that is not in the separator -/
+def Ctx.PhFresh : Prop := ∀ sep : List α, cx.placeholder sep ∉ sep
+
+/-- a separator without `phA` is padded with `phA` (the search stops at the first test) -/
+theorem phSearch_of_not_mem {sep : List α} {c : α} (h : c ∉ sep) (n : Nat) :
+    phSearch cx sep n c = c := by
+  cases n with
+  | zero => rfl
+  | succ n => simp only [phSearch, h, if_false]
+
+theorem Ctx.placeholder_eq_phA {sep : List α} (h : cx.phA ∉ sep) : cx.placeholder sep = cx.phA :=
+  phSearch_of_not_mem cx h _
 
 /-- manip.CountLeadingWhitespace -/
 def countLeadingWs (s : List α) : Int :=
